@@ -52,6 +52,11 @@ func (e *Entry) Symlink(fs FS) string {
 type accessedEntries struct {
 	wasPresent map[string]bool
 
+	// This maps the name of every entry that was found to be a symlink to what
+	// the symlink resolved to (or to the empty string if that failed). Watch mode
+	// needs this to notice when a symlink is changed to point to something else.
+	symlinks map[string]string
+
 	// If this is nil, "SortedKeys()" was not accessed. This means we should
 	// check for whether this directory has changed or not by seeing if any of
 	// the entries in the "wasPresent" map have changed in "present or not"
